@@ -791,6 +791,51 @@ func rh5Cleanup(w *World) {
 	if !found {
 		w.undecided("cleanup-under-lock|missing", ev.Decl.Pos(), "no call of the cleanup parameter found in EvictWithCleanup")
 	}
+	// lock-first: what is evicted is decided under the exclusive lock. Every look at the task map
+	// (getTask, e.tasks.*) and at the dependency graph (task.callers / task.deps) in
+	// EvictWithCleanup must happen while e.dirty is held exclusively; a lookup or walk made before
+	// Lock() races with a Run that is still in flight: the Run memoizes the key (or records a new
+	// dependency edge) after the lookup, finishes, and only then does the eviction proceed — on a
+	// snapshot that no longer contains what must be evicted, so a stale value stays cached.
+	tasksFld := w.field(incRel, "Executor", "tasks")
+	callersFld := w.field(incRel, "task", "callers")
+	depsFld := w.field(incRel, "task", "deps")
+	getTask := w.fn(incRel, "(*Executor).getTask")
+	nAcc := 0
+	d.Walk(func(_ *cfg.Block, n ast.Node, before Facts) {
+		if _, isGo := n.(*ast.GoStmt); isGo {
+			return
+		}
+		inspectPost(n, func(x ast.Node) {
+			what := ""
+			switch e := x.(type) {
+			case *ast.CallExpr:
+				if f := callee(info, e); f != nil && getTask != nil && f == getTask.Obj {
+					what = "getTask"
+				}
+			case *ast.SelectorExpr:
+				switch selField(info, e) {
+				case tasksFld:
+					what = "e.tasks"
+				case callersFld:
+					what = "task.callers"
+				case depsFld:
+					what = "task.deps"
+				}
+			}
+			if what == "" {
+				return
+			}
+			nAcc++
+			key := "lock-first|EvictWithCleanup|" + what
+			if before["W:e.dirty"] {
+				w.ok(key, x.Pos(), what+" is consulted while e.dirty is held exclusively")
+			} else {
+				w.violation(key, x.Pos(), what+" is consulted before e.dirty.Lock() (lock set "+before.String()+"): a Run still in flight can memoize the key or add a dependency edge after this look and before the lock is granted, so the eviction works on a stale snapshot and a value computed from the old input stays cached after the cleanup published the new one")
+			}
+		})
+	})
+	w.floor("task-map / dependency-graph accesses in EvictWithCleanup", nAcc, 4)
 	// result-agnostic eviction: no access to task.result in EvictWithCleanup or its module callees (getTask excepted: it only loads the task)
 	seen := map[*types.Func]bool{}
 	bad := 0
